@@ -1,20 +1,24 @@
 // C03 — completeness: an honest proof is always accepted.
 //
-// Enumerated (see drivers/c03_protocols.hh for the catalogue): every verifiable operation of the public API
+// Enumerated (catalogue: drivers/c03_protocols.hh, specs(3, tier, family)): every verifiable operation of the public API
 //   key share (NIZK / interactive / public coin), masking, re-masking, decryption share (VTMF level and through
 //   SchindelhauerTMCG), CP and OR proofs directly, the quadratic-residue encoding (mask card, card secret),
 //   stack equality by cut-and-choose (both encodings, permutation and cyclic, kappa in {0,1,2,8,16}; 80 once in thorough),
 //   Groth SKC / VSSHE and Hoogh et al. VRHE in interactive, public-coin and non-interactive form, directly and through
 //   the TMCG_*Groth*/TMCG_*Hoogh* wrappers, Pedersen and trapdoor commitments, the two-party coin flip, Rabin keys
 // x groups {Schnorr 256/160, Schnorr 512/192, QR (safe prime) 256; the library default 2048/256 once in thorough}
-// x l_e in {8,16,32,64} with |q| >= 2 l_e + 64, commitment size n and n+1
-// x stack size n in 2..3 (4 in thorough) with every permutation, every rotation (n <= 6 for cut-and-choose / VRHE-NI)
-// x 2..8 coin seeds per cell (quick) / 4..32 (thorough).  Coins come from mcenv coin sources, so a cell is replayable.
+// x l_e in {8,16,32,64} with |q| >= 2 l_e + 64 (public coin: 64, non-interactive: 32,64 — see le_ok in the catalogue),
+//   commitment size n and n+1, default l_e = 80 at 2048/256 once in thorough
+// x stack size n in 2..4 with every permutation, every rotation (n <= 6 for cut-and-choose and VRHE-NI), card types
+// x coin seeds per cell: quick 4-16, thorough 16-128 (1 for the default-size and kappa = 80 cells).
+// Bound per tier: quick ~7 500 protocol runs, thorough ~70 000.  Coins come from mcenv coin sources (replayable).
 //
-// Interactive variants run prover and verifier on two threads over wire::Duplex; non-interactive ones go through a
-// std::stringstream.  Oracle: the verifier returns true, neither side throws, no stall, and the protocol-specific
-// post-condition holds (common key updated, decryption recovers the message, TMCG_TypeOfCard returns the type, both
-// parties of the coin flip hold the same coin, the imported Rabin key verifies the owner's signature ...).
+// Interactive variants: prover and verifier as two coroutines on one thread (c03_core.hh run_inter_co; the same
+// execution as two threads over mc/wire.hh, which C3_TRANSPORT=threads and the ASan build select); non-interactive
+// ones through a std::stringstream.  Oracle: the verifier returns true, neither side throws, no stall, and the
+// protocol-specific post-condition holds (common key updated to h_i*h_j, decryption recovers the message,
+// TMCG_TypeOfCard returns the type, the revealed QR bits equal the owner's, both parties of the coin flip hold the
+// same coin, the imported Rabin key passes check() and verifies the owner's signature but not another message).
 // Every accepted transcript is hashed; distinct_nontrivial = number of distinct accepted transcripts with >= 1 line.
 #include "c03_protocols.hh"
 #include "c03_bigalloc.hh"
@@ -28,6 +32,7 @@ int main(int argc, char **argv)
 	if (!init_libTMCG()) return 2;
 	MuteCerr mute;
 	std::string fam = A.get("family", "");
+	if (A.has("as")) A.tier = A.get("as");      // run the (smaller) catalogue of another tier, e.g. the ASan pass of the thorough tier
 	std::vector<Spec> S;
 	try { S = specs(3, A.tier, fam); }
 	catch (std::exception &e) { printf("{\"t\":\"error\",\"what\":\"%s\"}\n", jesc(e.what()).c_str()); return 2; }
